@@ -1,5 +1,6 @@
 """Pools of graphs resolved by the implementation under test."""
 import glob
+import os
 import random
 import warnings
 
@@ -9,7 +10,7 @@ import gen
 
 def example_graphs():
     out = []
-    for f in sorted(glob.glob("/repo/examples/*.yaml")):
+    for f in sorted(glob.glob(os.path.join(os.environ.get("VERIF_REPO", "/repo"), "examples/*.yaml"))):
         try:
             out.append(("example:" + f.split("/")[-1], demes.load(f)))
         except Exception:
